@@ -144,6 +144,7 @@ var vxC15Prefixes = []string{
 	"", "x ", "1", "0x", "0b1", "1e", "1.5e+", "0x1p", "1_", "\"\\", "\"\\u00", "\"\\x", "'\\", "'\\U0010",
 	"`a\r", "//line ", "/*line :", "//line a:1:", "#", "# a\r", "/*", "/* *", "c\"", "py\"a", "1p", "1px", "..",
 	")\n", "x /", "<", "&", "=", "-", ">>", "&^", "x\n//", "x /*", "#*line ", "1r", "0o", "\xef\xbb\xbf", "'", "x\r",
+	"0X", "0B", "0O", "0X1P", "1E", "0x_",
 }
 
 func vxC15Input() ([]byte, Mode) {
